@@ -231,7 +231,8 @@ class C01(ScheduleEnumerationMixin, EngineCheck):
 
     def strategy(self, tier):
         base = super().strategy(tier)
-        return st.one_of(*([base] * 14), rec_consumer_templates(tier), shared_failure_templates(tier))
+        return st.one_of(*([base] * 14), rec_consumer_templates(tier), shared_failure_templates(tier),
+                         shared_between_candidates_templates(tier))
 
     rule = ('case = generated program (all mark kinds, modes, retry settings) x behaviour variant x 1 FIFO + 3 '
             'generated schedules (index tapes and rank schedules); non-trivial = at least two completions were '
@@ -322,7 +323,16 @@ class C02(ScheduleEnumerationMixin, EngineCheck):
             case['collab'] = draw(collabs())
             return case
 
-        return st.one_of(*([s()] * 14), lazy_in_rec())
+        @st.composite
+        def candidate_failures(draw):
+            # a candidate abandoned while helper tasks / shared nodes are at every stage
+            case = draw(st.one_of(shared_between_candidates_templates(tier), candidate_lazy_failure_templates(tier),
+                                  nested_containment_templates(tier)))
+            case['scheds'] = case['scheds'][:10:3] + case['scheds'][10:]
+            case['collab'] = draw(collabs())
+            return case
+
+        return st.one_of(*([s()] * 14), lazy_in_rec(), candidate_failures())
 
     def oracle(self, case, refres, obs):
         v = []
@@ -738,7 +748,8 @@ class C05(EngineCheck):
             return _sanitize(case)
 
         return st.one_of(*([s()] * 12), shared_failure_templates(tier),
-                         candidate_lazy_failure_templates(tier), nested_containment_templates(tier))
+                         candidate_lazy_failure_templates(tier), nested_containment_templates(tier),
+                         shared_between_candidates_templates(tier))
 
     def oracle(self, case, refres, obs):
         v = []
@@ -1189,6 +1200,73 @@ def nested_containment_templates(draw, tier):
     return {'program': prog, 'variant': var, 'scheds': scheds, 'template': 'nested-containment'}
 
 
+@st.composite
+def shared_between_candidates_templates(draw, tier):
+    """directed shape: the first candidate of a one-of needs a node F that fails AND a node X that the next candidate
+    needs too. X is a plain node, or a node with a switch / one-of parameter whose selected alternative has a slow
+    private dependency. F is released at every position of the run: before X is requested, while X (or the helper
+    task resolving its lazy parameter) is in flight, after it. Losing the first candidate must never cost the second
+    one its X."""
+    def N(nid, params=(), mode='gated', **kw):
+        d = {'id': nid, 'params': [list(p) for p in params], 'mode': mode}
+        d.update(kw)
+        return d
+    ext = st.sampled_from(['gated', 'gated', 'gated', 'thread', 'coro', 'inline'])
+    nodes = [N('n0', mode=draw(st.sampled_from(['coro', 'inline', 'gated'])))]
+    var = {'x': 0, 'nodes': {}}
+
+    def add(params, mode=None, **kw):
+        nid = f'n{len(nodes)}'
+        nodes.append(N(nid, params, mode=mode or draw(ext), **kw))
+        return nid
+
+    def chain(src, k):
+        for _ in range(k):
+            src = add([('k0', ['in', src])])
+        return src
+
+    # the failing node comes first in declaration (and topological) order in half of the cases
+    f_first = draw(st.booleans())
+
+    def failing_branch():
+        # the failing node itself, or a node behind it (the candidate then notices the failure through a descendant)
+        head = add([('k0', ['in', 'n0'])] if draw(st.booleans()) else [])
+        var['nodes'][head] = {'outcomes': [], 'tail': 'ErrA'}
+        return head, chain(head, draw(st.integers(0, 1)))
+
+    if f_first:
+        f_head, f = failing_branch()
+    kind = draw(st.sampled_from(['plain', 'sw', 'sw', 'oneof']))
+    if kind == 'plain':
+        x = chain('n0', draw(st.integers(1, 2)))
+    else:
+        slow = chain('n0', draw(st.integers(1, 2)))
+        ca = add([('k0', ['in', slow])])
+        cb = add([('k0', ['in', 'n0'])])
+        if kind == 'sw':
+            dec = add([('k0', ['in', 'n0'])])
+            var['nodes'][dec] = {'label': 'L0'}
+            x = add([('k0', ['sw', 'sw_x' if draw(st.booleans()) else None, dec, [['L0', ca], ['L1', cb]]])])
+        else:
+            x = add([('k0', ['oneof', [ca, cb]])])
+    if not f_first:
+        f_head, f = failing_branch()
+    p1 = [('k0', ['in', x]), ('k1', ['in', f])]
+    if draw(st.booleans()):
+        p1 = [('k0', ['in', f]), ('k1', ['in', x])]
+    c1 = add(p1)
+    c2 = add([('k0', ['in', x])])
+    cands = [c1, c2]
+    if draw(st.integers(0, 2)) == 0:
+        cands.append(add([('k0', ['in', f])]))
+    cons = add([('k0', ['oneof', cands])])
+    out = chain(cons, draw(st.integers(0, 1)))
+    prog = {'nodes': nodes, 'output': out}
+    held = draw(st.sampled_from([f_head, f_head, x] + ([slow] if kind != 'plain' else [])))
+    scheds = [{'kind': 'delay', 'node': held, 'after': k} for k in range(0, 9)] + [draw(G.schedules(prog))]
+    return {'program': prog, 'variant': var, 'scheds': scheds, 'template': 'shared-between-candidates'}
+
+
 def oracle_oneof_order(o, program, refres):
     """a candidate node's body starts only after every earlier candidate has failed (checked where the reference
     attributes the earlier candidate's failure to node bodies only)"""
@@ -1241,7 +1319,8 @@ class C10(EngineCheck):
         kw = self.gen_kwargs(tier)
         base = G.cases(**kw).map(_sanitize).filter(lambda c: S.has_kind(c['program'], 'oneof'))
         return st.one_of(base, base, base, base, base, base, base, base, base, shared_failure_templates(tier),
-                         candidate_lazy_failure_templates(tier), nested_containment_templates(tier))
+                         candidate_lazy_failure_templates(tier), nested_containment_templates(tier),
+                         shared_between_candidates_templates(tier))
 
     def oracle(self, case, refres, obs):
         v = []
